@@ -462,3 +462,387 @@ Lemma m_edges_sparse_exact : forall L R m s G s',
   gg_m_edges_as_is L R m s = GGOk (G, s') -> m <= L * R / 3 ->
   gg_nedges G = m /\ io_kind G = KBipartite /\ io_n G = L /\ io_r G = R /\ 0 <= m <= L * R.
 Proof. intros L R m s G s' H Hm. exact (m_edges_exact false L R m s G s' H (or_intror Hm)). Qed.
+
+(* ---------- bipartite_shift ---------- *)
+Lemma shift_edges_In N M pat u v : In (u, v) (gg_shift_edges N M pat) <->
+  1 <= u <= N /\ exists o, In o pat /\ v = 1 + (u - 1 + o) mod M.
+Proof.
+  unfold gg_shift_edges. rewrite in_flat_map. split.
+  - intros [x [Hx Hin]]. apply in_map_iff in Hin as [o [E Ho]]. inversion E; subst. apply range1_In in Hx. eauto.
+  - intros [Hu [o [Ho ->]]]. exists u. split; [now apply range1_In|]. apply in_map_iff. eauto.
+Qed.
+
+Theorem shift_named : forall b N M pat G p', gg_shift b N M pat = GGOk (G, p') ->
+  io_kind G = KBipartite /\ io_n G = N /\ io_r G = M /\ 1 <= N /\ 1 <= M /\
+  (forall u v, gio_has_edge G u v = true <-> 1 <= u <= N /\ exists o, In o pat /\ v = 1 + (u - 1 + o) mod M) /\
+  p' = (if b then gio_sort Z.ltb pat else pat).
+Proof.
+  intros b N M pat G p' H. unfold gg_shift in H.
+  destruct ((N <? 1) || (M <? 1)) eqn:E; [discriminate|].
+  bind_inv H G0 H0. apply gg_lift_ok in H0. apply new_inv in H0 as (_ & _ & ->).
+  bind_inv H G1 H1. apply gg_lift_ok in H1. inversion H; subst. apply add_edges_inv in H1 as [_ ->].
+  cbn [io_kind io_n io_r gio_with_edges].
+  split; [reflexivity|]. split; [reflexivity|]. split; [reflexivity|]. split; [lia|]. split; [lia|]. split; [|reflexivity].
+  intros u v. rewrite has_edge_In. cbn [io_kind gio_with_edges edge_norm io_edges]. rewrite map_id, insert_all_In, shift_edges_In.
+  split.
+  - intros [[Hu [o [Ho Hv]]]|[]]. split; [exact Hu|]. exists o. split; [now apply sort_In in Ho|exact Hv].
+  - intros [Hu [o [Ho Hv]]]. left. split; [exact Hu|]. exists o. split; [now apply sort_In|exact Hv].
+Qed.
+
+Theorem shift_returns : forall b N M pat, 1 <= N -> 1 <= M -> exists G p', gg_shift b N M pat = GGOk (G, p').
+Proof.
+  intros b N M pat HN HM. unfold gg_shift. replace ((N <? 1) || (M <? 1)) with false by lia.
+  rewrite new_ok by lia. cbn [gg_lift gg_bind]. rewrite add_edges_ok; [cbn [gg_lift gg_bind]; eauto|].
+  apply Forall_forall. intros [u v] Hin. apply shift_edges_In in Hin as [Hu [o [_ ->]]].
+  unfold edge_ok. cbn [io_kind io_n io_r fst snd]. pose proof (Z.mod_pos_bound (u - 1 + o) M). lia.
+Qed.
+
+Lemma shift_spec_keeps_pattern : forall N M pat G p', gg_shift_spec N M pat = GGOk (G, p') -> p' = pat.
+Proof. intros N M pat G p' H. apply shift_named in H. tauto. Qed.
+Lemma shift_as_is_changes_pattern : exists N M pat G p', gg_shift_as_is N M pat = GGOk (G, p') /\ p' <> pat.
+Proof. exists 4, 4, [3; 1]. eexists. eexists. split; [vm_compute; reflexivity|]. intros E. discriminate. Qed.
+
+(* ---------- guards imply the precondition of what is called next ---------- *)
+Lemma guard_gnd_refuted : exists n d, gg_guard_gnd [n; d] = true /\ ~ gg_pre_nx_random_regular d n.
+Proof. exists 4, 4. split; [reflexivity|]. unfold gg_pre_nx_random_regular. lia. Qed.
+Lemma guard_gnd_partial : forall args, gg_guard_gnd args = true ->
+  exists n d, args = [n; d] /\ (d < n -> gg_pre_nx_random_regular d n).
+Proof.
+  intros args H. destruct args as [|n [|d [|x t]]]; try discriminate. exists n, d. split; [reflexivity|].
+  unfold gg_guard_gnd in H. unfold gg_pre_nx_random_regular. lia.
+Qed.
+Lemma guard_gnd_spec_pre : forall args, gg_guard_gnd_spec args = true ->
+  exists n d, args = [n; d] /\ gg_pre_nx_random_regular d n.
+Proof.
+  intros args H. destruct args as [|n [|d [|x t]]]; try discriminate. exists n, d. split; [reflexivity|].
+  unfold gg_guard_gnd_spec in H. unfold gg_pre_nx_random_regular. lia.
+Qed.
+Lemma guard_gnm_pre : forall args, gg_guard_gnm args = true -> exists n m, args = [n; m] /\ gg_pre_nx_gnm n m.
+Proof.
+  intros args H. destruct args as [|n [|m [|x t]]]; try discriminate. exists n, m. split; [reflexivity|].
+  unfold gg_guard_gnm in H. unfold gg_pre_nx_gnm. lia.
+Qed.
+Lemma guard_grid_pre : forall dims, gg_guard_grid dims = true -> gg_pre_nx_grid dims.
+Proof.
+  intros dims H. unfold gg_guard_grid in H. unfold gg_pre_nx_grid. apply Forall_forall. intros d Hd.
+  rewrite forallb_forall in H. specialize (H d Hd). lia.
+Qed.
+Lemma guard_complete_simple_pre : forall args, gg_guard_complete_simple args = true ->
+  (exists n, args = [n] /\ 0 < n) \/ (exists n b, args = [n; b] /\ gg_pre_nx_multipartite n b).
+Proof.
+  intros args H. destruct args as [|n [|b [|x t]]]; try discriminate; unfold gg_guard_complete_simple in H.
+  - left. exists n. split; [reflexivity|lia].
+  - right. exists n, b. split; [reflexivity|]. unfold gg_pre_nx_multipartite. lia.
+Qed.
+Lemma guard_glrm_pre : forall args, gg_guard_glrm args = true -> exists l r m, args = [l; r; m] /\ gg_pre_m_edges l r m.
+Proof.
+  intros args H. destruct args as [|l [|r [|m [|x t]]]]; try discriminate. exists l, r, m. split; [reflexivity|].
+  unfold gg_guard_glrm in H. unfold gg_pre_m_edges. lia.
+Qed.
+Lemma guard_glrd_pre : forall args, gg_guard_glrd args = true -> exists l r d, args = [l; r; d] /\ gg_pre_left_regular l r d.
+Proof.
+  intros args H. destruct args as [|l [|r [|d [|x t]]]]; try discriminate. exists l, r, d. split; [reflexivity|].
+  unfold gg_guard_glrd in H. unfold gg_pre_left_regular. lia.
+Qed.
+Lemma guard_regular_pre : forall args, gg_guard_regular args = true ->
+  exists l r d, args = [l; r; d] /\ gg_pre_random_regular l r d /\ d <= r.
+Proof.
+  intros args H. destruct args as [|l [|r [|d [|x t]]]]; try discriminate. exists l, r, d. split; [reflexivity|].
+  unfold gg_guard_regular in H. unfold gg_pre_random_regular. rewrite (Z.mul_comm l d). lia.
+Qed.
+Lemma guard_shift_pre : forall values, gg_guard_shift values = true ->
+  exists L R pat, values = L :: R :: pat /\ gg_pre_shift L R (gio_sort Z.ltb pat) /\ (forall x, In x pat -> 0 <= x <= R).
+Proof.
+  intros values H. destruct values as [|L [|R pat]]; try discriminate. exists L, R, pat. split; [reflexivity|].
+  unfold gg_guard_shift in H. unfold gg_pre_shift.
+  destruct (existsb (fun x => (x <? 0) || (R <? x)) pat) eqn:E; [lia|]. split; [lia|].
+  intros x Hx. destruct ((x <? 0) || (R <? x)) eqn:Ex; [|lia].
+  assert (existsb (fun x => (x <? 0) || (R <? x)) pat = true) by (apply existsb_exists; eauto). congruence.
+Qed.
+Lemma guard_two_positive_pre : forall args, gg_guard_two_positive args = true -> exists l r, args = [l; r] /\ gg_pre_orders l r /\ 0 < l /\ 0 < r.
+Proof.
+  intros args H. destruct args as [|l [|r [|x t]]]; try discriminate. exists l, r. split; [reflexivity|].
+  unfold gg_guard_two_positive in H. unfold gg_pre_orders. lia.
+Qed.
+Lemma guard_one_nonneg_pre : forall args, gg_guard_one_nonneg args = true -> exists h, args = [h] /\ gg_pre_height h.
+Proof.
+  intros args H. destruct args as [|h [|x t]]; try discriminate. exists h. split; [reflexivity|].
+  unfold gg_guard_one_nonneg in H. unfold gg_pre_height. lia.
+Qed.
+(* plantclique: the guard and the test against the order of the graph give the precondition of random.sample *)
+Lemma guard_plantclique_pre : forall args n, gg_guard_one_nonneg args = true ->
+  exists k, args = [k] /\ ((n <? k) = false -> gg_pre_sample n k).
+Proof.
+  intros args n H. apply guard_one_nonneg_pre in H as [k [-> Hk]]. exists k. split; [reflexivity|].
+  unfold gg_pre_height in Hk. unfold gg_pre_sample. lia.
+Qed.
+Lemma guard_plantbiclique_pre : forall args L R, gg_guard_two_nonneg args = true ->
+  exists a b, args = [a; b] /\ ((L <? a) || (R <? b) = false -> gg_pre_sample L a /\ gg_pre_sample R b).
+Proof.
+  intros args L R H. destruct args as [|a [|b [|x t]]]; try discriminate. exists a, b. split; [reflexivity|].
+  unfold gg_guard_two_nonneg in H. unfold gg_pre_sample. lia.
+Qed.
+
+(* path, tree, pyramid on the command line: a graph or a refusal, never anything else *)
+Lemma obtain_dag_total : forall which args,
+  (exists G, gg_obtain_dag which args = GGOk G /\ gio_is_dag G = true) \/ gg_obtain_dag which args = GGRaise EValueError.
+Proof.
+  intros which args. unfold gg_obtain_dag. destruct args as [|h [|x t]]; auto.
+  destruct (gg_guard_one_nonneg [h]) eqn:E; [|auto]. left.
+  assert (Hh : 0 <= h) by (unfold gg_guard_one_nonneg in E; lia).
+  destruct (which =? 0); [|destruct (which =? 1)].
+  - destruct (dag_path_shape h Hh) as (G & HG & _ & _ & _ & Hd & _). eauto.
+  - destruct (dag_tree_shape h Hh) as (G & HG & _ & _ & _ & Hd). eauto.
+  - destruct (dag_pyramid_shape h Hh) as (G & HG & _ & _ & _ & Hd). eauto.
+Qed.
+
+(* ---------- combinations(l, 2) ---------- *)
+Lemma pairs_In {A} (l : list A) x y : In (x, y) (pairs l) -> In x l /\ In y l.
+Proof.
+  induction l as [|a t IH]; cbn [pairs]; [intros []|]. intros H. apply in_app_or in H as [H|H].
+  - apply in_map_iff in H as [b [E Hb]]. inversion E; subst. split; [now left|now right].
+  - apply IH in H. split; right; tauto.
+Qed.
+Lemma pairs_complete {A} (l : list A) x y : In x l -> In y l -> x <> y -> In (x, y) (pairs l) \/ In (y, x) (pairs l).
+Proof.
+  induction l as [|a t IH]; intros Hx Hy Hn; [destruct Hx|]. cbn [pairs].
+  destruct Hx as [->|Hx], Hy as [->|Hy].
+  - contradiction.
+  - left. apply in_or_app. left. apply in_map_iff. eauto.
+  - right. apply in_or_app. left. apply in_map_iff. eauto.
+  - destruct (IH Hx Hy Hn) as [H|H]; [left|right]; apply in_or_app; now right.
+Qed.
+Lemma pairs_NoDup {A} (l : list A) : NoDup l -> NoDup (pairs l).
+Proof.
+  induction 1 as [|a t Ha Hnd IH]; cbn [pairs]; [constructor|].
+  apply NoDup_app_intro; [|exact IH|].
+  - apply NoDup_map_inj; [|exact Hnd]. intros x y _ _ E. now inversion E.
+  - intros [x y] H1 H2. apply in_map_iff in H1 as [b [E _]]. inversion E; subst. apply pairs_In in H2. tauto.
+Qed.
+Lemma pairs_seq_lt : forall k a u v, In (u, v) (pairs (map Z.of_nat (seq a k))) -> Z.of_nat a <= u /\ u < v /\ v < Z.of_nat (a + k).
+Proof.
+  induction k as [|k IH]; intros a u v H; [destruct H|]. cbn [seq map pairs] in H. apply in_app_or in H as [H|H].
+  - apply in_map_iff in H as [b [E Hb]]. inversion E; subst. apply in_map_iff in Hb as [j [<- Hj]]. apply in_seq in Hj. lia.
+  - apply IH in H. lia.
+Qed.
+Lemma pairs_range1_lt n u v : In (u, v) (pairs (gt_range1 n)) -> 1 <= u /\ u < v /\ v <= n.
+Proof. unfold gt_range1. intros H. apply pairs_seq_lt in H. lia. Qed.
+
+(* ---------- plantclique / plantbiclique ---------- *)
+Theorem plantclique_clique : forall G k s G' s', io_kind G = KSimple -> gg_plantclique G k s = GGOk (G', s') ->
+  exists c, length c = Z.to_nat k /\ NoDup c /\ 0 <= k <= io_n G /\ (forall v, In v c -> 1 <= v <= io_n G) /\
+    (forall v w, In v c -> In w c -> v <> w -> gio_has_edge G' v w = true) /\
+    (forall e, In e (io_edges G) -> In e (io_edges G')) /\
+    (forall e, In e (io_edges G') -> In e (io_edges G) \/ (In (fst e) c /\ In (snd e) c)) /\
+    io_kind G' = KSimple /\ io_n G' = io_n G.
+Proof.
+  intros G k s G' s' Hk H. unfold gg_plantclique in H. destruct (io_n G <? k) eqn:E; [discriminate|].
+  bind_inv H c Hc. destruct c as [c s1]. cbn [fst snd] in H. apply sample_range1_spec in Hc as (Hkk & Hl & Hr & Hnd).
+  unfold gg_add_edges in H. bind_inv H G1 H1. apply gg_lift_ok in H1. inversion H; subst.
+  exists c. split; [exact Hl|]. split; [exact Hnd|]. split; [lia|]. split; [exact Hr|].
+  pose proof (add_edges_keeps _ _ _ H1) as (Hk1 & Hn1 & _ & Hsub).
+  apply add_edges_inv in H1 as [_ HG]. rewrite Hk in HG.
+  split; [|split; [exact Hsub|split; [|split; [congruence|exact Hn1]]]].
+  - intros v w Hv Hw Hvw. apply has_edge_In. rewrite Hk1, Hk, HG. cbn [io_edges gio_with_edges].
+    apply insert_all_In. left. apply in_map_iff.
+    destruct (pairs_complete c v w Hv Hw Hvw) as [Hp|Hp].
+    + exists (v, w). split; [reflexivity|exact Hp].
+    + exists (w, v). split; [|exact Hp]. unfold edge_norm. cbn [fst snd]. f_equal; lia.
+  - intros e He. rewrite HG in He. cbn [io_edges gio_with_edges] in He. apply insert_all_In in He as [He|He]; [right|now left].
+    apply in_map_iff in He as [[a b] [<- Hab]]. apply pairs_In in Hab. unfold edge_norm. cbn [fst snd].
+    destruct (Z.min_spec a b) as [[_ ->]|[_ ->]], (Z.max_spec a b) as [[_ ->]|[_ ->]]; tauto.
+Qed.
+
+Theorem plantbiclique_biclique : forall G a b s G' s', io_kind G = KBipartite -> gg_plantbiclique G a b s = GGOk (G', s') ->
+  exists lf rt, length lf = Z.to_nat a /\ length rt = Z.to_nat b /\ NoDup lf /\ NoDup rt /\
+    (forall u, In u lf -> 1 <= u <= io_n G) /\ (forall v, In v rt -> 1 <= v <= io_r G) /\
+    (forall u v, In u lf -> In v rt -> gio_has_edge G' u v = true) /\
+    (forall e, In e (io_edges G) -> In e (io_edges G')) /\
+    (forall e, In e (io_edges G') -> In e (io_edges G) \/ (In (fst e) lf /\ In (snd e) rt)) /\
+    io_kind G' = KBipartite /\ io_n G' = io_n G /\ io_r G' = io_r G.
+Proof.
+  intros G a b s G' s' Hk H. unfold gg_plantbiclique in H. destruct ((io_n G <? a) || (io_r G <? b)) eqn:E; [discriminate|].
+  bind_inv H lf Hlf. destruct lf as [lf s1]. cbn [fst snd] in H. apply sample_range1_spec in Hlf as (_ & Hl1 & Hr1 & Hnd1).
+  bind_inv H rt Hrt. destruct rt as [rt s2]. cbn [fst snd] in H. apply sample_range1_spec in Hrt as (_ & Hl2 & Hr2 & Hnd2).
+  unfold gg_add_edges in H. bind_inv H G1 H1. apply gg_lift_ok in H1. inversion H; subst.
+  exists lf, rt. repeat (split; [assumption|]).
+  pose proof (add_edges_keeps _ _ _ H1) as (Hk1 & Hn1 & Hrr1 & Hsub).
+  apply add_edges_inv in H1 as [_ HG]. rewrite Hk in HG. cbn [edge_norm] in HG. rewrite map_id in HG.
+  split; [|split; [exact Hsub|split; [|split; [congruence|split; assumption]]]].
+  - intros u v Hu Hv. apply has_edge_In. rewrite Hk1, Hk, HG. cbn [io_edges gio_with_edges edge_norm].
+    apply insert_all_In. left. apply in_flat_map. exists u. split; [exact Hu|]. apply in_map_iff. eauto.
+  - intros e He. rewrite HG in He. cbn [io_edges gio_with_edges] in He. apply insert_all_In in He as [He|He]; [right|now left].
+    apply in_flat_map in He as [u [Hu He]]. apply in_map_iff in He as [v [<- Hv]]. cbn. tauto.
+Qed.
+
+(* ---------- add_random_missing_edges ---------- *)
+Definition same_frame (G G' : iograph) : Prop :=
+  io_kind G' = io_kind G /\ io_n G' = io_n G /\ io_r G' = io_r G /\ (forall e, In e (io_edges G) -> In e (io_edges G')).
+Lemma same_frame_refl G : same_frame G G.
+Proof. unfold same_frame. auto. Qed.
+Lemma same_frame_trans G1 G2 G3 : same_frame G1 G2 -> same_frame G2 G3 -> same_frame G1 G3.
+Proof. unfold same_frame. intros (a & b & c & d) (a' & b' & c' & d'). repeat split; try congruence. auto. Qed.
+
+Lemma ae_loop_spec : forall n s cnt goal G G' s', (length s <= n)%nat ->
+  gg_ae_loop cnt goal G s = GGOk (G', s') -> gg_nedges G <= goal ->
+  gg_nedges G <= gg_nedges G' <= goal /\ same_frame G G'.
+Proof.
+  induction n as [|n IH]; intros s cnt goal G G' s' Hlen H Hg.
+  - destruct s; [|cbn in Hlen; lia]. cbn [gg_ae_loop] in H.
+    destruct (cnt <=? 0); [inversion H; subst; split; [lia|apply same_frame_refl]|].
+    destruct (goal <=? gg_nedges G); [inversion H; subst; split; [lia|apply same_frame_refl]|].
+    destruct (gg_ae_pop_small G); discriminate.
+  - destruct s as [|a s]; cbn [gg_ae_loop] in H.
+    + destruct (cnt <=? 0); [inversion H; subst; split; [lia|apply same_frame_refl]|].
+      destruct (goal <=? gg_nedges G); [inversion H; subst; split; [lia|apply same_frame_refl]|].
+      destruct (gg_ae_pop_small G); discriminate.
+    + destruct (cnt <=? 0); [inversion H; subst; split; [lia|apply same_frame_refl]|].
+      destruct (goal <=? gg_nedges G) eqn:Eg; [inversion H; subst; split; [lia|apply same_frame_refl]|].
+      destruct (gg_ae_pop_small G); [discriminate|].
+      destruct s as [|b t]; [discriminate|]. cbn [length] in Hlen.
+      destruct (gg_ae_pick G a b) as [[u v]|]; [|discriminate].
+      destruct (gio_has_edge G u v) eqn:Eh.
+      * apply IH in H; [exact H|lia|exact Hg].
+      * bind_inv H G1 H1. apply gg_lift_ok in H1.
+        pose proof (add_new_edge _ _ _ _ Eh H1) as (Hc & _). pose proof (add_edge_keeps _ _ _ _ H1) as Hf.
+        apply IH in H; [|lia|lia]. destruct H as [Hb Hf']. split; [lia|].
+        eapply same_frame_trans; [|exact Hf']. exact Hf.
+Qed.
+
+Lemma candidates_NoDup G : NoDup (gg_candidates G).
+Proof. unfold gg_candidates. destruct (io_kind G); try apply pairs_NoDup, range1_NoDup. apply all_pairs_NoDup. Qed.
+(* on the candidate pairs add_edge stores the pair itself *)
+Lemma candidates_norm G e : io_kind G <> KDirected -> In e (gg_candidates G) -> edge_norm (io_kind G) e = e.
+Proof.
+  unfold gg_candidates, edge_norm. destruct (io_kind G); intros Hk Hin; try reflexivity.
+  destruct e as [u v]. apply pairs_range1_lt in Hin. cbn [fst snd]. f_equal; lia.
+Qed.
+
+Theorem add_missing_exact : forall G m s G' s', io_kind G <> KDirected -> gg_add_missing G m s = GGOk (G', s') ->
+  gg_nedges G' = gg_nedges G + m /\ 0 <= m /\ same_frame G G'.
+Proof.
+  intros G m s G' s' Hk H. unfold gg_add_missing in H. destruct (m <? 0) eqn:Em; [discriminate|].
+  destruct (gg_total2 G <? 2 * (gg_nedges G + m)) eqn:Et; [discriminate|].
+  bind_inv H r Hr. destruct r as [G1 s1]. cbn [fst snd] in H.
+  apply (ae_loop_spec (length s)) in Hr; [|lia|lia]. destruct Hr as [Hb Hf].
+  destruct (gg_nedges G1 <? gg_nedges G + m) eqn:El.
+  - bind_inv H es Hes. destruct es as [es s2]. cbn [fst snd] in H.
+    apply sample_list_spec in Hes as (_ & Hl & Hin & Hnd); [|apply NoDup_filter, candidates_NoDup].
+    unfold gg_add_edges in H. bind_inv H G2 H2. apply gg_lift_ok in H2. inversion H; subst.
+    pose proof (add_edges_keeps _ _ _ H2) as Hf2. apply add_edges_inv in H2 as [_ HG].
+    assert (Hk1 : io_kind G1 <> KDirected) by (destruct Hf as (-> & _); exact Hk).
+    assert (Hmap : map (edge_norm (io_kind G1)) es = es).
+    { rewrite <- (map_id es) at 2. apply map_ext_in. intros e He. apply Hin in He. apply filter_In in He as [He _].
+      now apply candidates_norm. }
+    rewrite Hmap in HG. split; [|split; [lia|eapply same_frame_trans; [exact Hf|exact Hf2]]].
+    rewrite HG. unfold gg_nedges, gg_len in *. cbn [io_edges gio_with_edges]. rewrite insert_all_length.
+    + rewrite Hl. lia.
+    + exact Hnd.
+    + intros e He Hc. pose proof (Hin e He) as Hav. apply filter_In in Hav as [Hcand Hno].
+      assert (gio_has_edge G1 (fst e) (snd e) = true); [|rewrite H0 in Hno; discriminate].
+      apply has_edge_In. rewrite <- surjective_pairing. rewrite candidates_norm; assumption.
+  - inversion H; subst. split; [lia|]. split; [lia|exact Hf].
+Qed.
+
+(* ---------- split_random_edges ---------- *)
+Lemma filter_ssorted (p : Z * Z -> bool) l : ssorted l -> ssorted (filter p l).
+Proof.
+  induction 1 as [|x l Hs IH Hx]; cbn [filter]; [constructor|].
+  destruct (p x); [|exact IH]. constructor; [exact IH|]. intros y Hy. apply filter_In in Hy as [Hy _]. auto.
+Qed.
+Lemma filter_remove_length (l : list (Z * Z)) e : NoDup l -> In e l ->
+  S (length (filter (fun x => negb (gio_pair_eqb x e)) l)) = length l.
+Proof.
+  induction 1 as [|a t Ha Hnd IH]; intros Hin; [destruct Hin|]. cbn [filter length].
+  destruct (gio_pair_eqb a e) eqn:E; cbn [negb].
+  - apply pair_eqb_spec in E. subst a. f_equal. rewrite filter_all; [reflexivity|].
+    intros y Hy. destruct (gio_pair_eqb y e) eqn:E2; [|reflexivity]. apply pair_eqb_spec in E2. subst. contradiction.
+  - cbn [length]. f_equal. apply IH. destruct Hin as [->|Hin]; [|exact Hin]. rewrite pair_eqb_refl in E. discriminate.
+Qed.
+Lemma add_edge_wf G u v G' : gio_wf G -> gio_add_edge G u v = GOk G' -> gio_wf G'.
+Proof.
+  intros Hw H. apply (add_edges_wf G [(u, v)] G' Hw). cbn [gio_add_edges]. rewrite H. reflexivity.
+Qed.
+Lemma wf_stored G e : gio_wf G -> In e (io_edges G) -> edge_stored_ok G e.
+Proof. intros (_ & _ & _ & _ & Hf) Hin. rewrite Forall_forall in Hf. auto. Qed.
+
+Lemma split_step G u v x G1 G2 : gio_wf G -> io_kind G = KSimple -> In (u, v) (io_edges G) ->
+  (forall e, In e (io_edges G) -> snd e < x) ->
+  gio_add_edge (gg_remove_edge G u v) u x = GOk G1 -> gio_add_edge G1 x v = GOk G2 ->
+  gio_wf G2 /\ io_kind G2 = KSimple /\ io_n G2 = io_n G /\ gg_nedges G2 = gg_nedges G + 1 /\
+  (forall e, In e (io_edges G2) -> snd e < x + 1) /\
+  (forall e, In e (io_edges G) -> e <> (u, v) -> In e (io_edges G2)).
+Proof.
+  intros Hw Hk Hin Hx H1 H2.
+  pose proof (wf_stored G _ Hw Hin) as Hst. unfold edge_stored_ok in Hst. rewrite Hk in Hst. cbn [fst snd] in Hst.
+  pose proof (Hx _ Hin) as Hvx. cbn [snd] in Hvx.
+  assert (Hh : gio_has_edge G u v = true).
+  { apply has_edge_In. rewrite Hk. unfold edge_norm. cbn [fst snd]. replace (Z.min u v) with u by lia. replace (Z.max u v) with v by lia. exact Hin. }
+  unfold gg_remove_edge in H1. rewrite Hh in H1. replace (Z.min u v) with u in H1 by lia. replace (Z.max u v) with v in H1 by lia.
+  set (es0 := filter (fun e => negb (gio_pair_eqb e (u, v))) (io_edges G)) in *.
+  set (G0 := gio_with_edges G es0) in *.
+  assert (Hsub0 : forall e, In e es0 -> In e (io_edges G)) by (intros e He; apply filter_In in He; tauto).
+  assert (Hw0 : gio_wf G0).
+  { destruct Hw as (a & b & c & d & f). unfold gio_wf, G0. cbn [gio_with_edges io_n io_r io_kind io_edges].
+    repeat split; try assumption; [now apply filter_ssorted|].
+    apply Forall_forall. intros e He. rewrite Forall_forall in f. apply (f e). now apply Hsub0. }
+  pose proof (add_edge_wf _ _ _ _ Hw0 H1) as Hw1. pose proof (add_edge_wf _ _ _ _ Hw1 H2) as Hw2.
+  apply add_edge_inv in H1 as [Hok1 HG1]. apply add_edge_inv in H2 as [Hok2 HG2]. subst G1.
+  unfold G0 in HG2. cbn [io_kind io_edges gio_with_edges] in HG2. rewrite Hk in HG2.
+  unfold edge_norm in HG2. cbn [fst snd] in HG2.
+  replace (Z.min u x) with u in HG2 by lia. replace (Z.max u x) with x in HG2 by lia.
+  replace (Z.min x v) with v in HG2 by lia. replace (Z.max x v) with x in HG2 by lia.
+  assert (Hn0 : forall w, ~ In (w, x) es0).
+  { intros w Hc. apply Hsub0, Hx in Hc. cbn [snd] in Hc. lia. }
+  split; [exact Hw2|]. rewrite HG2. cbn [io_kind io_n gio_with_edges io_edges].
+  split; [exact Hk|]. split; [reflexivity|]. split; [|split].
+  - unfold gg_nedges, gg_len. cbn [io_edges gio_with_edges].
+    rewrite insert_length_new.
+    + rewrite insert_length_new by apply Hn0.
+      pose proof (filter_remove_length (io_edges G) (u, v) (ssorted_NoDup _ (proj1 (proj2 (proj2 (proj2 Hw))))) Hin) as Hlen.
+      fold es0 in Hlen. lia.
+    + intros Hc. apply insert_In in Hc as [Hc|Hc]; [inversion Hc; lia|]. now apply Hn0 in Hc.
+  - intros e He. apply insert_In in He as [->|He]; [cbn; lia|]. apply insert_In in He as [->|He]; [cbn; lia|].
+    apply Hsub0, Hx in He. lia.
+  - intros e He Hne. apply insert_In. right. apply insert_In. right. apply filter_In. split; [exact He|].
+    destruct (gio_pair_eqb e (u, v)) eqn:E; [|reflexivity]. apply pair_eqb_spec in E. contradiction.
+Qed.
+
+Lemma split_loop_spec : forall es G x G', gio_wf G -> io_kind G = KSimple -> NoDup es ->
+  (forall e, In e es -> In e (io_edges G)) -> (forall e, In e (io_edges G) -> snd e < x) ->
+  gg_split_loop G x es = GGOk G' ->
+  gio_wf G' /\ io_kind G' = KSimple /\ io_n G' = io_n G /\ gg_nedges G' = gg_nedges G + gg_len es.
+Proof.
+  induction es as [|[u v] t IH]; intros G x G' Hw Hk Hnd Hin Hx H; cbn [gg_split_loop] in H.
+  - inversion H; subst. split; [exact Hw|]. split; [exact Hk|]. split; [reflexivity|]. unfold gg_len. cbn [length]. lia.
+  - bind_inv H G1 H1. apply gg_lift_ok in H1. bind_inv H G2 H2. apply gg_lift_ok in H2.
+    inversion Hnd as [|a l Hnot Hnd']; subst.
+    destruct (split_step G u v x G1 G2 Hw Hk (Hin _ (or_introl eq_refl)) Hx H1 H2) as (Hw2 & Hk2 & Hn2 & Hm2 & Hx2 & Hkeep).
+    apply IH in H; [|exact Hw2|exact Hk2|exact Hnd'| |exact Hx2].
+    + destruct H as (Hw' & Hk' & Hn' & Hm'). split; [exact Hw'|]. split; [exact Hk'|]. split; [congruence|].
+      rewrite Hm', Hm2. unfold gg_len. cbn [length]. lia.
+    + intros e He. apply Hkeep; [apply Hin; now right|]. intros ->. contradiction.
+Qed.
+
+Theorem split_exact : forall G k s G' s', gio_wf G -> gg_split_edges G k s = GGOk (G', s') ->
+  io_kind G = KSimple /\ io_kind G' = KSimple /\ 0 <= k /\
+  io_n G' = io_n G + k /\ gg_nedges G' = gg_nedges G + k /\ gio_wf G'.
+Proof.
+  intros G k s G' s' Hw H. unfold gg_split_edges in H. destruct (io_kind G) eqn:Hk; try discriminate.
+  destruct (k <? 0) eqn:Ek; [discriminate|]. destruct (gg_nedges G <? k) eqn:Em; [discriminate|].
+  bind_inv H ts Hts. destruct ts as [ts s1]. cbn [fst snd] in H.
+  pose proof Hw as (Hn & Hr & Hkr & Hs & Hf).
+  apply sample_list_spec in Hts as (_ & Hl & Hin & Hnd); [|now apply ssorted_NoDup].
+  bind_inv H G0 H0. unfold gg_update_vertex_number in H0. destruct (io_n G + k <? 0); [discriminate|]. inversion H0; subst G0. clear H0.
+  bind_inv H G1 H1. inversion H; subst.
+  apply split_loop_spec in H1.
+  - destruct H1 as (Hw' & Hk' & Hn' & Hm'). cbn [io_n] in Hn'. split; [reflexivity|]. split; [exact Hk'|]. split; [lia|].
+    split; [lia|]. split; [|exact Hw']. rewrite Hm'. unfold gg_nedges, gg_len. cbn [io_edges]. lia.
+  - unfold gio_wf. cbn [io_n io_r io_kind io_edges]. repeat split; try assumption; try lia.
+    apply Forall_forall. intros e He. rewrite Forall_forall in Hf. specialize (Hf e He).
+    unfold edge_stored_ok in *. cbn [io_kind io_n]. rewrite Hk in *. lia.
+  - exact Hk.
+  - exact Hnd.
+  - exact Hin.
+  - cbn [io_edges]. intros e He. rewrite Forall_forall in Hf. specialize (Hf e He). unfold edge_stored_ok in Hf. rewrite Hk in Hf. lia.
+Qed.
